@@ -230,10 +230,12 @@ func K6(variant int) *Entry {
 		outer := M("OuterPart", F("OuterLabel"), F("InnerPart", MsgT("InnerPart"), NonNull(), Embed()), F("OuterFlag", Sc(ir.Bool)))
 		deep := M("DeepPart", F("DeepLabel"), F("DeepRatio", Sc(ir.Double)))
 		wrap := M("WrapPart", F("WrapLabel"), F("DeepPart", MsgT("DeepPart"), Embed()))
-		holder := M("Nest", F("Title"), F("OuterPart", MsgT("OuterPart"), Embed()), F("WrapPart", MsgT("WrapPart"), NonNull(), Embed()), F("Count", Sc(ir.Int32)),
+		side := M("SidePart", F("SideLabel"), F("SideCount", Sc(ir.Int32)))
+		// (two nullable embeds in one message)
+		holder := M("Nest", F("Title"), F("OuterPart", MsgT("OuterPart"), Embed()), F("WrapPart", MsgT("WrapPart"), NonNull(), Embed()), F("Count", Sc(ir.Int32)), F("SidePart", MsgT("SidePart"), Embed()),
 			F("Sub", MsgT("NestSub")), F("Subs", MsgT("NestSub"), Rep()))
 		sub := M("NestSub", F("SubLabel"), F("OuterPart", MsgT("OuterPart"), Embed()))
-		f := file("k6f", holder, outer, inner, deep, wrap, sub)
+		f := file("k6f", holder, outer, inner, deep, wrap, sub, side)
 		AutoComments(f)
 		return &Entry{Name: "k6f", File: f, Cfg: BaseConfig("Nest"), Tags: []string{"embed", "embed?", "embed-in-embed"}}
 	case 4:
